@@ -22,6 +22,9 @@ Deviation tags returned by Match.witness():
   re-subtraction         [a-z-[aeiou]] is read by PCRE2 as a class followed by a literal ']'
   re-posix-class         a bracket expression that starts with '.', ':' or '=' and ends with the same character, e.g.
                          [..] or [=a=], is rejected by PCRE2 as a POSIX collating element / class name
+  re-match-limit         pcre2_match() gives up (match limit) on nested quantifiers: the value is rejected with an
+                         internal error whatever the XSD answer is
+  re-block-oob           the block rewrite reads ublock2urange[] out of bounds (see RewriteUB); answers are arbitrary
   re-dot-cr              '.' matches CR (XSD: [^\\n\\r])
   re-s-unicode           \\s matches VT, FF, NEL, NBSP ... (PCRE2_UCP), XSD: only space, TAB, LF, CR
 """
@@ -303,7 +306,7 @@ def r_class(rng, dev):
         items.append("-")
         samp.append("-")
     txt = "[" + ("^" if neg else "") + "".join(items)
-    if dev and rng.random() < 0.3:
+    if dev and rng.random() < 0.3 and items[-1] != "-":
         txt += "-[" + rng.choice(["a", "0-9", "^a", "_$"]) + "]"
     txt += "]"
     if neg:
@@ -404,7 +407,7 @@ def ub_possible(pat):
 R_TOK = PAT_ALPHA + ["\\p{Is", "\\p{IsGreek}", "\\p{IsBasicLatin}", "\\P{IsArabic}", "}", "\\\\", "\\[", "\\]", "\\^", "\\$", "[^", "\\p{L}",
                      "\\p{", "Is", "Greek", "p", "\\d", "[a-z]", "\\\\[", "\\\\]", "\\p{IsSpecials}", "\\p{IsCJKCompatibilityForms}", "x"]
 
-UB_PATTERNS = ["\\\\[]\\p{IsGreek}", "[\\\\[]]\\p{IsBasicLatin}", "a\\\\[b]c]\\p{IsThai}", "[" * 84 + "\\p{IsBasicLatin}",
+UB_PATTERNS = ["\\\\[]\\p{IsGreek}", "[\\\\[]]\\p{IsBasicLatin}", "a\\\\[b]\\p{IsThai}", "[" * 84 + "\\p{IsBasicLatin}",
                "[" * 85 + "\\p{IsBasicLatin}"]
 
 
@@ -509,7 +512,7 @@ class Match(_Regex):
         for _ in range(self.n(tier, 1500, 100000, scale)):
             dev = tier == "thorough" and rng.random() < 0.3
             p, f = r_regexp(rng, 2, dev)
-            if len(p) > 120 or "'" in p or (tier != "thorough" and expected_dev(p)):
+            if len(p) > 120 or "'" in p or (tier != "thorough" and (expected_dev(p) or ub_possible(p))):
                 continue
             ss = set()
             for _ in range(6):
@@ -535,11 +538,13 @@ class Match(_Regex):
             oi = o[i] if i < len(o) else "?"
             if mi != oi:
                 s = unhex(h).decode("utf-8", "replace")
-                tag = classify(pat, s)
+                tag = "re-block-oob" if ub_possible(pat) else ("re-match-limit" if "L" in oi else classify(pat, s))
                 what = "XSD says %s, ly_pattern_match/lyd_value_validate say %s" % (mi, oi)
+                if "X" in mi or "?" in mi:
+                    return (None, "pattern %r string %r: outside the modelled XSD subset (generator or parser defect)" % (pat, s))
                 if oi[:1] != oi[-1:]:
                     what += " (the two entry points disagree)"
-                    tag = None
+                    tag = tag if tag == "re-block-oob" else None
                 return (tag, "pattern %r string %r: %s" % (pat, s, what))
         return None
 
@@ -558,7 +563,7 @@ class MatchList(_Regex):
             ps = []
             for _ in range(k):
                 p = rng.choice(small) if rng.random() < 0.7 else r_regexp(rng, 1, False)[0]
-                if "'" in p:
+                if "'" in p or expected_dev(p) or ub_possible(p):
                     p = "a"
                 ps.append("%d\t%s" % (rng.randrange(2), hexs(p)))
             for s in rng.sample(strs, 8):
